@@ -18,6 +18,7 @@ import (
 
 	"shanhu.io/g/sniproxy"
 	"verif/harness/hx"
+	"verif/harness/snix"
 )
 
 // segConn delivers scripted segments: each Read returns bytes of one segment only.
@@ -83,9 +84,9 @@ func padHello(h []byte, body int) ([]byte, bool) {
 		return nil, false
 	}
 	o := 5 + 4 + 2 + 32
-	o += 1 + int(h[o])                     // session id
+	o += 1 + int(h[o])                    // session id
 	o += 2 + (int(h[o])<<8 | int(h[o+1])) // cipher suites
-	o += 1 + int(h[o])                     // compression
+	o += 1 + int(h[o])                    // compression
 	if o+2 > len(h) {
 		return nil, false
 	}
@@ -453,8 +454,26 @@ func main() {
 			rep.Count(fmt.Sprintf("size:%dk", len(c.stream)/1024))
 		}
 	}
+	if f.Replay == "" {
+		// the sniffer inside the proxy: the hello arrives before / after the serving context is cancelled, whole or in pieces
+		for _, mode := range []string{"legacy", "siding"} {
+			for _, when := range []string{"cancel-before-hello", "cancel-mid-hello", "no-cancel"} {
+				ops = append(ops, fmt.Sprintf("proxy %s mode=%s", when, mode))
+				cases = append(cases, nil)
+			}
+		}
+	}
+	jr := hx.NewJournal(f.Work)
 	impl := make([]string, len(ops))
 	for i, op := range ops {
+		if strings.HasPrefix(op, "proxy ") {
+			jr.Risky(op)
+			impl[i] = runProxyOp(op, rep)
+			jr.Clear()
+			rep.Case(op, true)
+			rep.Count("proxy-sniff")
+			continue
+		}
 		impl[i] = runOp(op, rep, cases[i])
 		nt := cases[i] == nil || cases[i].wf || len(cases[i].stream) >= 5
 		rep.Case(op, nt)
@@ -466,7 +485,14 @@ func main() {
 			rep.Sample(map[string]string{"op": s, "impl": trunc(impl[i])})
 		}
 	}
-	model, err := hx.RunDriver(f.Driver, nil, ops)
+	drvOps := make([]string, len(ops))
+	for i, op := range ops {
+		drvOps[i] = op
+		if strings.HasPrefix(op, "proxy ") {
+			drvOps[i] = "conn cap=gen chunks=- reads=-"
+		}
+	}
+	model, err := hx.RunDriver(f.Driver, nil, drvOps)
 	if err != nil {
 		rep.Note("driver failed: %v", err)
 		rep.ModelAvailable = false
@@ -477,6 +503,9 @@ func main() {
 			if j := strings.Index(m, "hello=ok:"); j >= 0 {
 				k := strings.Index(m, " ")
 				m = "hello=ok" + m[k:]
+			}
+			if strings.HasPrefix(ops[i], "proxy ") {
+				continue
 			}
 			if m != impl[i] {
 				rep.Disagree("peek-read", trunc(ops[i]), trunc(impl[i]), trunc(m))
@@ -507,6 +536,94 @@ func main() {
 		}
 	}
 	rep.Write(f.Out)
+}
+
+// runProxyOp runs the sniffer where it lives: in a proxy's hostConn.  The ClientHello (followed by a
+// payload) is sent before, around or without a cancellation of the serving context; whatever happens
+// to the connection, the process must survive, a connection that is served must carry exactly the
+// bytes the client sent from the hello's first byte on, and the name it is routed by is the hello's.
+func runProxyOp(op string, rep *hx.Report) string {
+	ws := strings.Fields(op)
+	when := ws[1]
+	mode := strings.TrimPrefix(ws[2], "mode=")
+	rig, err := snix.NewRig(mode, nil, nil)
+	if err != nil {
+		return "skip " + err.Error()
+	}
+	defer rig.Close()
+	ep, err := rig.Endpoint("a")
+	if err != nil {
+		return "skip " + err.Error()
+	}
+	hello := snix.ClientHello("a.test")
+	payload := []byte("payload-after-the-hello")
+	got := make(chan []byte, 1)
+	go func() {
+		c, err := ep.Accept()
+		if err != nil {
+			got <- nil
+			return
+		}
+		defer c.Close()
+		c.SetDeadline(time.Now().Add(5 * time.Second))
+		buf := make([]byte, len(hello)+len(payload))
+		n, _ := io.ReadFull(c, buf)
+		got <- buf[:n]
+	}()
+	cl, err := net.Dial("tcp", rig.Lis.Addr().String())
+	if err != nil {
+		return "skip " + err.Error()
+	}
+	defer cl.Close()
+	time.Sleep(30 * time.Millisecond) // the proxy has accepted the connection and waits for the hello
+	switch when {
+	case "cancel-before-hello":
+		rig.Cancel()
+		time.Sleep(30 * time.Millisecond)
+		cl.Write(hello)
+		cl.Write(payload)
+	case "cancel-mid-hello":
+		cl.Write(hello[:7])
+		time.Sleep(20 * time.Millisecond)
+		rig.Cancel()
+		time.Sleep(20 * time.Millisecond)
+		cl.Write(hello[7:])
+		cl.Write(payload)
+	default:
+		cl.Write(hello[:3])
+		time.Sleep(10 * time.Millisecond)
+		cl.Write(hello[3:])
+		cl.Write(payload)
+	}
+	var arrived []byte
+	wait := 5 * time.Second
+	if when != "no-cancel" {
+		wait = 400 * time.Millisecond // the connection may legitimately be dropped
+	}
+	select {
+	case arrived = <-got:
+	case <-time.After(wait):
+	}
+	want := append(append([]byte{}, hello...), payload...)
+	switch {
+	case when == "no-cancel" && !bytes.Equal(arrived, want):
+		rep.Fail("proxy-sniff-altered:"+mode, fmt.Sprintf("a connection served by the proxy delivered %d bytes to the application, the client sent %d (ClientHello + payload); first difference at %d", len(arrived), len(want), firstDiffBytes(arrived, want)), []string{op})
+	case len(arrived) > 0 && !bytes.HasPrefix(want, arrived):
+		rep.Fail("proxy-sniff-altered:"+mode, "bytes reached the application that the client did not send in that order", []string{op})
+	}
+	return fmt.Sprintf("survived arrived=%d", len(arrived))
+}
+
+func firstDiffBytes(a, b []byte) int {
+	for i := 0; i < len(a) && i < len(b); i++ {
+		if a[i] != b[i] {
+			return i
+		}
+	}
+	if len(a) < len(b) {
+		return len(a)
+	}
+	return len(b)
 }
 
 func trunc(s string) string {
